@@ -233,12 +233,116 @@ fn shard(seed: u64, shard: u64, n: u64) -> Tally {
     t
 }
 
+/// Every calendar day of a run of years: the exact credential is accepted and the provider is asked for that UTC
+/// date; the same credential with the year, month or day off by one is refused at the scope check (even when
+/// signed under that foreign date's key).
+fn calendar_sweep(seed: u64, shard: u64, shards: u64, years: std::ops::RangeInclusive<i64>) -> Tally {
+    let mut t = Tally::new();
+    let mut k = 0u64;
+    for y in years {
+        for m in 1..=12i64 {
+            for d in 1..=crate::rm::time::days_in_month(y, m) {
+                k += 1;
+                if k % shards != shard {
+                    continue;
+                }
+                let mut r = Rng::keyed(seed, "C03", "calendar", shard, k);
+                let cfg = Cfg {
+                    region: "us-east-1".into(),
+                    service: "service".into(),
+                    s3: false,
+                    fold: false,
+                    reqs: Reqs {
+                        build: 3,
+                        ..Default::default()
+                    },
+                    now: Inst {
+                        s: 0,
+                        ns: 0,
+                    },
+                };
+                let o = GenOpts {
+                    max_pairs: 1,
+                    max_extra_headers: 1,
+                    allow_form: false,
+                    ..Default::default()
+                };
+                let mut l = gen_logical(&mut r, &cfg, &o);
+                l.t = Inst::from_civil(y, m, d, r.range(0, 23), r.range(0, 59), r.range(0, 59), 0);
+                for variant in 0..3 {
+                    let mut ov = Overrides::default();
+                    let mut fixed = None;
+                    if variant > 0 {
+                        // a neighbouring date: previous day / same day of the next year (when it exists)
+                        let other = if variant == 1 {
+                            l.t.plus_s(-86400)
+                        } else {
+                            Inst::from_civil(y + 1, m, d.min(crate::rm::time::days_in_month(y + 1, m)), 12, 0, 0, 0)
+                        };
+                        let od = other.yyyymmdd();
+                        ov.credential = Some(format!("{}/{}/{}/{}/aws4_request", l.access_key, od, cfg.region, cfg.service));
+                        ov.key_scope = Some((od.clone(), cfg.region.clone(), cfg.service.clone()));
+                        let c = other.civil();
+                        fixed = Some(Answer::Fixed {
+                            secret: l.secret.clone(),
+                            ymd: (c.0 as i32, c.1 as u32, c.2 as u32),
+                            region: cfg.region.clone(),
+                            service: cfg.service.clone(),
+                        });
+                    }
+                    let mut sr = Rng::keyed(seed, "C03", "calendar-spell", shard, k * 4 + variant);
+                    let mut sp = Speller {
+                        r: &mut sr,
+                        level: 0,
+                    };
+                    let (mut case, _) = make_case(&l, &cfg, &mut sp, &ov, r.range(-600, 600) as i128 * 1_000_000_000);
+                    if let Some(a) = fixed {
+                        case.script.answer = a;
+                    }
+                    let rec = execute(&case);
+                    t.eval();
+                    let Some(j) = judge(&case, &rec) else {
+                        continue;
+                    };
+                    if let Some(v) = mon_provider_args(&case, &rec, &j) {
+                        t.violate(v);
+                    }
+                    match &j.agreement {
+                        Agreement::Mismatch {
+                            detail,
+                            known,
+                        } => t.violate(violation("scope", &format!("calendar/{}", variant), format!("request dated {} (variant {}): {}", l.t.compact(), variant, detail), &case, *known)),
+                        Agreement::Agree => {
+                            t.count(if variant == 0 {
+                                "calendar_days_accepted"
+                            } else {
+                                "calendar_neighbour_dates_refused"
+                            });
+                            t.nontrivial(case.hash());
+                        }
+                        Agreement::Silent(w) => t.count(&format!("silent: {}", w)),
+                    }
+                }
+            }
+        }
+    }
+    t
+}
+
 pub fn run(tier: Tier) -> i32 {
     let mut ctx = Ctx::new("C03", tier);
     let pre = preflight();
     let seed = ctx.seed;
     let per = tier.n(700, 30_000);
     let mut tally = ctx.par(32, |s| shard(seed, s, per));
+    let years = if tier == Tier::Quick {
+        2014i64..=2026
+    } else {
+        1995i64..=2105
+    };
+    let ndays: u64 = years.clone().map(|y| if crate::rm::time::is_leap(y) { 366 } else { 365 }).sum();
+    let cal = ctx.par(32, |s| calendar_sweep(seed, s, 32, years.clone()));
+    tally.merge(cal);
     if let Err(e) = &pre {
         tally.inconclusive.push(e.clone());
     }
@@ -259,6 +363,9 @@ pub fn run(tier: Tier) -> i32 {
     ctx.gate("foreign-scope-valid requests refused", tally.get("foreign_scope_valid_refused"), tier.n(1000, 20_000));
     ctx.gate("midnight-straddling requests accepted with provider date checked", tally.get("straddle_accepted_local_date_differs"), tier.n(100, 1000));
     ctx.gate("arity variants (0-8 parts) refused", (0..9).filter(|k| *k != 5 && tally.get(&format!("variant_refused/arity-{}", k)) > 0).count() as u64, 8);
+    ctx.gate("calendar sweep: every day of the year range accepted with its exact credential", tally.get("calendar_days_accepted"), ndays);
+    ctx.gate("calendar sweep: neighbouring scope dates refused", tally.get("calendar_neighbour_dates_refused"), 2 * ndays);
+    ctx.exhaustive("every calendar day of the swept years (exact scope date accepted; previous day and next year refused)", true);
     ctx.gate("provider calls whose arguments were checked", tally.get("provider_calls_checked"), tier.n(500, 5000));
     let rep = Report {
         level: "exploration",
